@@ -215,6 +215,57 @@ def rule_vacant_insert(facts, rid):
             r9.violate("vacant-insert", "map_index inserts a key that the object does not have even when the update yields nothing (the insertion is not conditional on the updater's output being `Some`): `del(.missing)` / `.missing |= empty` create the key", where=b.bbs[c]["t"]["sp"])
     return r9
 
+
+def rule_index_input(facts, rid):
+    """`f[x]`: the index filter x is evaluated on the input of the whole term (with its context), in all evaluators."""
+    r = Rule(rid, "in all three evaluators the index filters of a path term are run on the term's own context-and-input pair: everything their argument is built from "
+             "goes back to a context/value pair (the evaluator's parameter or its pass-through copy), never to an output of the path's subject "
+             "(`(.a)[.k]` must look up `.k` in the input, not in `.a`, for values, for `path(..)` and for updates alike)", floor=3)
+    for mode in MODES:
+        f, m = evaluator(facts, mode)
+        if m is None:
+            r.missing_anchor(f"TermId::{mode}")
+            continue
+        cs = candidates(m["arms"], C("jaq_core::compile::Term::Path", ANY, ANY))
+        if len(cs) != 1:
+            r.missing_anchor(f"Path arm of TermId::{mode}")
+            continue
+        a = m["arms"][cs[0][0]]
+        binds = {}
+        for b in find(f["params"], lambda n: n.get("k") == "Bind"):
+            binds[b["id"]] = (b.get("ty"), None)
+        for l in find(a["body"], lambda n: n.get("k") == "Let"):
+            for b in find(l["pat"], lambda n: n.get("k") == "Bind"):
+                binds[b["id"]] = (b.get("ty"), l.get("init"))
+        for c in find(a["body"], lambda n: n.get("k") == "Closure"):
+            for b in find(c.get("params", []), lambda n: n.get("k") == "Bind"):
+                binds.setdefault(b["id"], (b.get("ty"), None))
+        pb = {i for ids in pat_binds(a["pat"]).values() for i in ids}
+        n_idx = 0
+        for n in find(a["body"], lambda n: n.get("k") == "MethodCall" and n["m"]["name"] == "run" and (n["m"].get("def") or "").startswith("jaq_core::filter::")):
+            rid_ = (strip(n["recv"]).get("path") or {}).get("id")
+            if rid_ is None or rid_ in pb:
+                continue
+            n_idx += 1
+            roots, st, seen = set(), [x["path"]["id"] for x in find(n["args"], lambda y: y.get("k") == "Path" and y["path"].get("id") is not None)], set()
+            while st:
+                i = st.pop()
+                if i in seen:
+                    continue
+                seen.add(i)
+                ty, init = binds.get(i, (None, None))
+                if init is None:
+                    roots.add((i, ty or "?"))
+                    continue
+                st += [x["path"]["id"] for x in find(init, lambda y: y.get("k") == "Path" and y["path"].get("id") is not None)]
+            bad = sorted(t for i, t in roots if not re.match(r"^&?\(jaq_core::filter::Ctx<", t))
+            r.examined((mode, n["sp"]), True, {"evaluator": mode, "index_filter_argument_built_from": sorted(t[:50] for i, t in roots)})
+            if bad:
+                r.violate(f"index-input/{mode}", f"TermId::{mode}, Path: the argument of an index filter is built from a value of type {bad} (an output of the subject), not only from the term's context-and-input pair: `(.a)[.k]` looks `.k` up in the wrong value in this evaluator", where=n["sp"])
+        if not n_idx:
+            r.missing_anchor(f"run of the index filters in the Path arm of TermId::{mode}")
+    return r
+
 def run(facts, tier):
     t0 = time.time()
     rules = []
@@ -439,6 +490,9 @@ def run(facts, tier):
 
     # ---------------- T2.9 an update that yields nothing creates no position
     rules.append(rule_vacant_insert(facts, "T2.9").finish())
+
+    # ---------------- T2.10 index filters see the input of the whole term
+    rules.append(rule_index_input(facts, "T2.10").finish())
 
     # ---------------- T2.7 native twins
     t7 = Rule("T2.7", "the natives that exist in a value and a path version (first, last, limit, skip) are the same code up to the evaluator they call", floor=4)
